@@ -1,6 +1,6 @@
 module phpverif/harness
 
-go 1.13
+go 1.21
 
 require github.com/z7zmey/php-parser v0.0.0
 
